@@ -220,3 +220,10 @@ func Reset(p string) {
 	loaded, inputs, bounds, at, failed, traceLn = false, nil, nil, 0, nil, nil
 }
 func TraceLines() []string  { return traceLn }
+
+// RaceDetect(true): the symbolic executor keeps vector clocks for the
+// interpreted goroutines and reports two accesses to one memory cell (at least
+// one write, at least one not through sync/atomic) that no happens-before edge
+// orders, on every explored schedule. No-op natively (the replay is built with
+// the Go race detector instead).
+func RaceDetect(b bool) {}
